@@ -120,7 +120,9 @@ def run(ctx: Ctx) -> None:
     # ---- consumers
     bc = repo.func("moptipyapps.binpacking2d.objectives.bin_count",
                    "BinCount.lower_bound")
-    ok1 = any(isinstance(r, ast.Return) and ast.unparse(r.value).endswith(
+    from sa.srcmodel import inline_locals
+    ok1 = any(isinstance(r, ast.Return) and r.value is not None
+              and ast.unparse(inline_locals(bc.node, r.value)).endswith(
         "instance.lower_bound_bins") for r in ast.walk(bc.node))
     isp = repo.func("moptipyapps.binpacking2d.instgen.instance_space",
                     "InstanceSpace.__init__")
